@@ -53,7 +53,10 @@ func vp_C13_verify() {
 	// signed port, empty port); the signature is genuine in every case - an invalid origin must be refused anyway
 	origin := spec.ServerName(vpChoice("origin", "origin.example", "origin.example:8448", "[::1]:8448", "origin.example:65536", "origin.example:+8448", "origin.example:-1", "origin.example:", "[::1]:70000"))
 	originValid := origin == "origin.example" || origin == "origin.example:8448" || origin == "[::1]:8448"
-	fr := NewFederationRequest(method, origin, "dest.example", uri)
+	// the request is addressed (and genuinely signed) to the receiver's default name, to a further name it owns through
+	// its callback, or to a name it does not own
+	dest := spec.ServerName(vpChoice("destination", "dest.example", "alias.example", "foreign.example"))
+	fr := NewFederationRequest(method, origin, dest, uri)
 	if hasBody {
 		vpAssume(fr.SetContent(map[string]string{"k": vpNondetStringN("body", 2)}) == nil)
 	}
@@ -119,12 +122,19 @@ func vp_C13_verify() {
 	}
 	got, resp := VerifyHTTPRequest(req, time.Unix(1700000000, 0), local, isLocal, verifier)
 	accepted := got != nil && resp.Code == 200
-	vpAssert("verdict", accepted == (tamper == "none" && originValid))
+	owned := dest == "dest.example" || (dest == "alias.example" && isLocal != nil && tamper != "not-local")
+	if tamper == "not-local" {
+		owned = false
+	}
+	if tamper == "other-default-name" {
+		owned = false
+	}
+	vpAssert("verdict", accepted == (tamper == "none" && originValid && owned))
 	if accepted {
 		vpAssert("reports-method", got.Method() == method)
 		vpAssert("reports-uri", got.RequestURI() == uri)
 		vpAssert("reports-origin", got.Origin() == origin)
-		vpAssert("reports-destination", got.Destination() == "dest.example")
+		vpAssert("reports-destination", got.Destination() == dest)
 		vpAssert("reports-body", bytes.Equal(got.Content(), fr.Content()))
 	}
 	vpReach("accepted", accepted)
